@@ -226,6 +226,7 @@ type HarnessReport struct {
 	Forks        int                    `json:"forks"`
 	Queries      SolverStats            `json:"solver"`
 	Secs         float64                `json:"wall_s"`
+	Notes        []string               `json:"notes,omitempty"`
 }
 
 func main() {
@@ -314,6 +315,7 @@ func cmdRun(args []string) int {
 			for _, f := range h.Failures {
 				rep.Failures = append(rep.Failures, f.ID)
 			}
+			rep.Notes = h.Notes
 			mu.Lock()
 			runs[i], reports[i], execs[i] = h, rep, e
 			status := "ok"
@@ -324,6 +326,9 @@ func cmdRun(args []string) int {
 				status += " INCONCLUSIVE"
 			}
 			fmt.Printf("  %-40s paths=%-4d instrs=%-8d merges=%-4d queries=%-5d solver=%dms wall=%.1fs %s\n", h.Name, h.Paths, e.stats.Instrs, e.stats.Merges, rep.Queries.Queries, rep.Queries.Millis, rep.Secs, status)
+			for _, m := range h.Notes {
+				fmt.Printf("      note: %s\n", m)
+			}
 			if cfg.Verbose || len(h.Inconclusive) > 0 {
 				for _, m := range h.Inconclusive {
 					fmt.Printf("      inconclusive: %s\n", firstLines(m, 12))
